@@ -13,6 +13,7 @@
      c17 spec.lines.len xHEX → N     spec.lines.list xHEX → list xHEX…
      c17 boundary xHEX I → none | some K
      c17 buf new|from:xHEX (c:CP | s:xHEX)*           → xHEX
+     c17 bufseq new|from:xHEX (c:CP | s:xHEX | r)*    → list xHEX…  (one per read)
 -/
 import Driver.Util
 import RotoV.Model.Strings
@@ -63,8 +64,15 @@ def bufInit (w : String) : Option (List Char) :=
     | 'f' :: 'r' :: 'o' :: 'm' :: ':' :: rest => (decStr (String.ofList rest)).map bufFrom
     | _ => none
 
+def bufEv (w : String) : Option BufEv :=
+  if w = "r" then some .read else (bufOp w).map .op
+
 def handle (args : List String) : String :=
   match args with
+  | "bufseq" :: init :: evs =>
+    match bufInit init, evs.mapM bufEv with
+    | some st, some es => listOut ((bufTrace st es).map encStr)
+    | _, _ => "bad-op"
   | "buf" :: init :: ops =>
     match bufInit init, ops.mapM bufOp with
     | some st, some log => encStr (bufRun st log)
